@@ -474,11 +474,33 @@ func (w *World) afterEndBlock() {
 		case govv1.StatusPassed:
 			p.Done, p.Passed = true, true
 			w.Class("gov.passed." + p.Op.Kind)
+			if p.Op.Kind == EntRaise {
+				w.adoptRaisedByGovernance()
+			}
 		case govv1.StatusFailed, govv1.StatusRejected:
 			p.Done = true
 		}
 	}
 	w.SyncParams()
+}
+
+// adoptRaisedByGovernance: a passed proposal executed purchase-order messages in end-block; the model takes over the
+// orders the chain now has beyond its own (identifier, purchaser, amount and raise time as stored).
+func (w *World) adoptRaisedByGovernance() {
+	ctx := w.C.Ctx()
+	k := w.C.App.EnterpriseKeeper
+	for n := 0; n < 64; n++ {
+		po, ok := k.GetPurchaseOrder(ctx, w.Ent.NextID)
+		if !ok {
+			return
+		}
+		a, err := sdk.AccAddressFromBech32(po.Purchaser)
+		if err != nil {
+			return
+		}
+		w.Ent.ApplyRaise(string(a), po.Purchaser, po.Amount.Amount.BigInt(), po.Amount.Denom, po.RaiseTime)
+		w.Class("gov.order-raised-by-the-governance-account")
+	}
 }
 
 // classifyHalt: a panic in BeginBlock/EndBlock/Commit is a chain halt (C14).
